@@ -168,7 +168,54 @@ func (g *c05Gen) body(depth int, wantReturn bool, sh map[string]bool) c05Body {
 		}
 		return out
 	}
-	switch k := g.rng.IntN(9); k {
+	switch k := g.rng.IntN(11); k {
+	case 9, 10: // `while true` around a construct whose arms end in return or break
+		// the loop can only be left through a break: with a break in some arm the code after the
+		// loop is reachable and needs its own return; without one the loop never completes normally
+		nArms := 2 + g.rng.IntN(2)
+		breaks := 0
+		arm := func(forceBreak bool) []gen.Stmt {
+			var ss []gen.Stmt
+			if g.rng.IntN(3) == 0 {
+				ss = append(ss, g.filler())
+			}
+			if forceBreak || g.rng.IntN(2) == 0 {
+				breaks++
+				return append(ss, &gen.Break{})
+			}
+			return append(ss, g.retStmt())
+		}
+		var inner gen.Stmt
+		switch g.rng.IntN(3) {
+		case 0: // integer match with default
+			m := &gen.Match{Subj: g.b, HasDef: true}
+			for v := 0; v < nArms; v++ {
+				m.Arms = append(m.Arms, gen.MatchArm{Pat: g.lit(int64(v)), Body: arm(false)})
+			}
+			m.Default = arm(breaks == 0 && g.rng.IntN(4) != 0)
+			inner = m
+			sh["while-true-match-default"] = true
+		case 1: // enum match covering every variant, with a default as well (exhaustive either way)
+			m := &gen.Match{Subj: g.e, HasDef: true}
+			for v := 0; v < len(g.enum.Variants)-1; v++ {
+				m.Arms = append(m.Arms, gen.MatchArm{Pat: &gen.EnumLit{T: g.enum, V: v}, Body: arm(false)})
+			}
+			m.Default = arm(breaks == 0 && g.rng.IntN(4) != 0)
+			inner = m
+			sh["while-true-enum-match"] = true
+		default: // if / else
+			th := arm(false)
+			inner = &gen.If{Cond: g.cond(), Then: th, Else: arm(breaks == 0 && g.rng.IntN(4) != 0)}
+			sh["while-true-if-else"] = true
+		}
+		out.stmts = append(out.stmts, &gen.While{Cond: &gen.Lit{T: gen.TBool, I: 1}, Body: []gen.Stmt{inner}})
+		if breaks == 0 {
+			out.may = true // the loop never completes normally: whether code after it is required is not pinned
+			out.returns = true
+		} else if wantReturn {
+			out.stmts = append(out.stmts, g.retStmt())
+			out.returns = true
+		}
 	case 0: // plain trailing return (or nothing)
 		if wantReturn {
 			out.stmts = append(out.stmts, g.retStmt())
@@ -304,7 +351,7 @@ func (g *c05Gen) body(depth int, wantReturn bool, sh map[string]bool) c05Body {
 
 func checkC05(c *Ctx) error {
 	r := c.R
-	r.Rule = "function bodies built from nested if / else-if / else, integer match with and without default, enum match (exhaustive without default = MAY), while / for with break / continue and early returns, as named functions, methods and function literals, with conditions over parameters and over locals that are run-time valued at the test but constant elsewhere in the function (plus 14 directed stale-constant templates x 4 forms); each classified by a reference path analysis. MUST_REJECT bodies must be rejected (control: the same body plus a trailing return must be accepted), MUST_ACCEPT bodies must be accepted; every accepted function is called natively over the argument grid {-1,0,1,2,3}^2 x all enum variants and its printed results compared with the reference interpreter (which detects falling off the end). non-trivial = a distinct body whose verdict matched (and, if accepted, whose grid outputs matched)"
+	r.Rule = "function bodies built from nested if / else-if / else, integer match with and without default, enum match (exhaustive without default = MAY), while / for with break / continue and early returns, `while true` loops around if/else and exhaustive matches whose arms end in return or break, as named functions, methods and function literals, with conditions over parameters and over locals that are run-time valued at the test but constant elsewhere in the function (plus 14 directed stale-constant templates x 4 forms); each classified by a reference path analysis. MUST_REJECT bodies must be rejected (control: the same body plus a trailing return must be accepted), MUST_ACCEPT bodies must be accepted; every accepted function is called natively over the argument grid {-1,0,1,2,3}^2 x all enum variants and its printed results compared with the reference interpreter (which detects falling off the end). non-trivial = a distinct body whose verdict matched (and, if accepted, whose grid outputs matched)"
 	r.Assumptions = []string{"conditions are opaque to the path analysis; `while` and `for` never count as returning; statements after a return are not generated"}
 	n := c.N(320, 4000)
 	enum := &gen.Type{K: gen.KEnum, Name: "Kind", Variants: []string{"A", "B", "C"}}
